@@ -214,7 +214,7 @@ def _match_seq(ex, spec, items, rd: Reader, b: Binding, region: str):
             if not isinstance(loop, RLoop):
                 raise Mismatch("reader: payloads are not read by a loop over the directory entries", "")
             lr = ex.loops[loop.lid]
-            if lr.kind != "for":
+            if lr.kind not in ("for", "comp"):  # a comprehension visits the entries in order just like a for statement
                 raise Mismatch("reader: payload loop is not a for-loop over the directory entries", "")
             if not _iter_is_entries(ex, lr, b, node["rep_each"]):
                 raise Mismatch("reader: payload loop does not iterate the parsed directory entries in directory order (iterates %s)" % show(lr.iter, 4), loop.items[0].ev.where if loop.items else "")
